@@ -3,10 +3,10 @@ package deque
 //verif:pkg ./container/deque
 //verif:case C04 quick VerifDequeBase
 //verif:case C04 quick VerifDequeStep 0..8,12..13 -1..10,16,17,32
-//verif:case C04 quick VerifDequeStep 11 -1..10,16,17
+//verif:case C04 quick VerifDequeStep 11 -1..10,16
 //verif:case C04 quick VerifDequeStep 9..10 -1..8
-//verif:case C04 thorough VerifDequeStep 0..8,12..13 11..15,18..31,33..40
-//verif:case C04 thorough VerifDequeStep 11 11..15,18..28
+//verif:case C04 thorough VerifDequeStep 0..8,12..13 11..15,18..31,33..40 @unwind=200
+//verif:case C04 thorough VerifDequeStep 11 11..15
 //verif:case C04 thorough VerifDequeStep 9..10 9..13,16
 
 // ---- representation invariant and abstraction (branch-free; loops run over concrete sizes)
